@@ -37,6 +37,11 @@ def draw_value(data, tt, flags):
         if data.draw(st.integers(0, 5)) == 0:
             base = data.draw(st.sampled_from([' ', '  ', '\n'])) + base + data.draw(st.sampled_from(['', ' ', '\t']))
             flags.add('surrounding-whitespace')
+        elif data.draw(st.integers(0, 11)) == 0:
+            # white space only: significant for xs:string content (a lyric text of one blank)
+            base = data.draw(st.sampled_from([' ', '  ', ' \n ', '\t']))
+            flags.add('surrounding-whitespace')
+            flags.add('whitespace-only')
         return base
     txt = data.draw(st.sampled_from(lexical.valid_texts(tt)))
     ok, pv = lexical.python_value_for(tt, txt)
